@@ -66,7 +66,12 @@ func Run(c *fw.Ctx) {
 		b, _ := json.Marshal(sp)
 		cases = append(cases, b)
 	}
-	c.RunIsolated("c12-program", cases, fw.CasesOpts{Workers: 14, CaseTimout: 15 * time.Minute})
+	if os.Getenv("VERIF_C12_STAGE") != "typedkeys" { // development aid
+		c.RunIsolated("c12-program", cases, fw.CasesOpts{Workers: 14, CaseTimout: 15 * time.Minute})
+	}
+	if os.Getenv("VERIF_C12_ONLY") == "" {
+		runTypedKeys(c)
+	}
 }
 
 // ---- per-case runtime -------------------------------------------------------
